@@ -19,7 +19,7 @@ META = dict(
           'REF-SEM. non-trivial = distinct (logic, argument) with >= 2 connectives in total, or whose proof took >= 2 steps.'),
     assumptions=['REF-SEM truth tables', 'monitoring cap of 250 (thorough 1500) steps: a longer loop-free proof is counted inconclusive; non-termination is detected as the same rule expanding the same node twice on one branch'],
     min_events={'any': {'verdict_valid_confirmed': 2000, 'verdict_invalid_confirmed': 2000, 'logics': 52}},
-    budget=dict(quick=1500, thorough=2400),
+    budget=dict(quick=1500, thorough=7200),
     unit_timeout=dict(quick=900, thorough=3000),
 )
 
